@@ -82,8 +82,11 @@ Reset(init) ==
 Ratios == {cur, tgt, cur', tgt'}      \* the values a step can mention (TLC: finite)
 Init == status = "ok" /\ Advertised /\ drift = 0 /\ const = TRUE /\ cur = prm.orig /\ tgt = prm.orig
 
+\* after a call has died nothing is promised any more
+Dead == status = "dead" /\ UNCHANGED prm
+
 Next(init, ratioSet, chunkSet) ==
-  \/ Process \/ Die \/ Rejected
+  \/ Process \/ Die \/ Rejected \/ Dead
   \/ \E r \in ratioSet, ramp \in BOOLEAN : SetRatioOk(r, ramp)
   \/ \E n \in chunkSet : SetChunkOk(n)
   \/ Reset(init)
